@@ -2,7 +2,7 @@
 
 Lean: Props/C09.lean (CLI fold characterisation, ladder lemmas) over Model/Settings.lean.
 Correspondence: model `select` (loadSettings + shouldLoad) vs refurb's load_settings + should_load_check,
-in-process, on option sequences that are exhaustive to length 3 (quick) / 4 (thorough) over a 17-option
+in-process, on option sequences that are exhaustive to length 3 (quick) / 4 (thorough) over a 20-option
 alphabet, each split between config file and command line at every position, plus random long sequences.
 Oracle: an independent transcription of the README's precedence rules (`selected`), applied to the
 implementation's verdicts; every kind of disagreement is re-confirmed end to end through the CLI
@@ -25,7 +25,12 @@ GENERATED = ["Unicode"]
 
 # probe checks: (prefix, code, categories, enabled-by-default)
 PROBES = [("FURB", 901, ("c1",), True), ("FURB", 902, ("c1", "c2"), True), ("FURB", 903, ("c2",), False), ("XYZ", 100, (), True)]
-NAMES = ["901", "FURB903", "#c1", "#c2", "XYZ100"]
+# "901" and "FURB901" are two spellings of ONE check; in a config file "901" is written as the TOML integer 901 (a third spelling)
+NAMES = ["901", "FURB901", "FURB903", "#c1", "#c2", "XYZ100"]
+
+
+def cfg_spelling(n: str) -> Any:
+    return int(n) if n.isdigit() else n
 ALPHABET = [(k, n) for k in ("enable", "disable", "ignore") for n in NAMES] + [("enable_all", None), ("disable_all", None)]
 
 
@@ -55,8 +60,8 @@ def to_config(opts: list[tuple[str, str | None]]) -> dict[str, Any]:
             cfg[k] = True
         else:
             cfg.setdefault(k, [])
-            if n not in cfg[k]:
-                cfg[k].append(n)
+            if cfg_spelling(n) not in cfg[k]:
+                cfg[k].append(cfg_spelling(n))
     return cfg
 
 
@@ -71,7 +76,8 @@ def to_toml(cfg: dict[str, Any]) -> str:
 # the README, transcribed (independent of refurb's code and of the Lean model)
 
 
-def norm(name: str) -> tuple[str, Any]:
+def norm(name: Any) -> tuple[str, Any]:
+    name = str(name)
     if name.startswith("#"):
         return ("cat", name[1:])
     m = re.fullmatch(r"([A-Z]{3,4})?(\d{3})", name)
@@ -218,7 +224,7 @@ def run(ctx) -> None:
     for _ in range(600 if ctx.quick else 6000):
         seqs.append([rng.choice(ALPHABET) for _ in range(rng.randint(maxlen + 1, 12))])
     res.rule = (
-        f"option sequences over a 17-option alphabet ({{enable,disable,ignore}}x{{901,FURB903,#c1,#c2,XYZ100}} + the two all-switches): "
+        f"option sequences over a 20-option alphabet ({{enable,disable,ignore}}x{{901 (integer 901 in a config file),FURB901,FURB903,#c1,#c2,XYZ100}} + the two all-switches): "
         f"exhaustive to length {maxlen} ({n_exh} sequences) + random to length 12; each split between config file and command line "
         "(all split points for length<=3, two random ones otherwise); a case is a (config, argv) pair; non-trivial = at least one option "
         "mentions a classifier of one of the four probe checks (always true for non-empty sequences); distinct = distinct (config, argv)"
